@@ -3,6 +3,7 @@ package main
 import (
 	"fmt"
 	"go/token"
+	"go/types"
 	"strings"
 
 	"golang.org/x/tools/go/ssa"
@@ -226,3 +227,119 @@ func (c *Ctx) accumulatorWidth(f *ssa.Function) {
 }
 
 var excAccum = map[string]string{}
+
+// enumTables: a named basic type whose MarshalTLB is a switch over its constants, each writing a
+// constant tag, and whose UnmarshalTLB reads a tag and switches back, carries two tables. They
+// must be mutual inverses: decode(encode(v)) == v for every listed constant and
+// encode(decode(k)) == k for every listed tag. (Widths are compared by the codec-pair rule.)
+func (c *Ctx) enumTables(rule string, rels ...string) int {
+	n := 0
+	constKey := func(v ssa.Value) (string, bool) {
+		cst, ok := v.(*ssa.Const)
+		if !ok || cst.Value == nil {
+			return "", false
+		}
+		return cst.Value.ExactString(), true
+	}
+	for _, rel := range rels {
+		p := c.pkg(rel)
+		if p == nil {
+			continue
+		}
+		for _, name := range p.Types.Scope().Names() {
+			tn, ok := p.Types.Scope().Lookup(name).(*types.TypeName)
+			if !ok {
+				continue
+			}
+			if _, isBasic := tn.Type().Underlying().(*types.Basic); !isBasic {
+				continue
+			}
+			w := c.fn(rel, name+".MarshalTLB")
+			r := c.fn(rel, name+".UnmarshalTLB")
+			if w == nil || r == nil || len(w.Params) == 0 {
+				continue
+			}
+			recv := ssa.Value(w.Params[0])
+			enc := map[string]string{} // value -> tag
+			multi := map[string]bool{}
+			for _, q := range []string{bocPath + ".Cell.WriteUint", bocPath + ".Cell.WriteInt"} {
+				for _, cl := range callsTo(w, q) {
+					k, ok := constKey(cl.Call.Args[1])
+					if !ok {
+						continue
+					}
+					for _, ft := range factsAt(w, cl.Block()) {
+						bo, ok := ft.Cond.(*ssa.BinOp)
+						if !ok || bo.Op != token.EQL || !ft.Truth || bo.X != recv {
+							continue
+						}
+						if v, ok := constKey(bo.Y); ok {
+							if _, dup := enc[v]; dup {
+								multi[v] = true // a tag written in several pieces: not a plain table entry
+							}
+							enc[v] = k
+						}
+					}
+				}
+			}
+			for v := range multi {
+				delete(enc, v)
+			}
+			if len(enc) < 2 {
+				continue
+			}
+			// reader: tag value = result of a ReadUint/ReadInt; stores of constants into *recv under tag == K
+			dec := map[string]string{} // tag -> value
+			allInstrs(r, func(b *ssa.BasicBlock, in ssa.Instruction) {
+				st, ok := in.(*ssa.Store)
+				if !ok || st.Addr != ssa.Value(r.Params[0]) {
+					return
+				}
+				v, ok := constKey(st.Val)
+				if !ok {
+					return
+				}
+				var tags []string
+				for _, ft := range factsAt(r, b) {
+					bo, ok := ft.Cond.(*ssa.BinOp)
+					if !ok || bo.Op != token.EQL || !ft.Truth {
+						continue
+					}
+					if !derivesFrom(bo.X, func(x ssa.Value) bool {
+						c2 := callOf(x)
+						return c2 != nil && (strings.HasSuffix(callQName(&c2.Call), ".ReadUint") || strings.HasSuffix(callQName(&c2.Call), ".ReadInt"))
+					}, false) {
+						continue
+					}
+					if k, ok := constKey(bo.Y); ok {
+						tags = append(tags, k)
+					}
+				}
+				if len(tags) == 1 { // a value selected by several tag pieces is not a plain table entry
+					dec[tags[0]] = v
+				}
+			})
+			if len(dec) < 2 {
+				continue
+			}
+			n++
+			var probs []string
+			for _, v := range sortedKeys(enc) {
+				k := enc[v]
+				if back, ok := dec[k]; ok && back != v {
+					probs = append(probs, fmt.Sprintf("%s is written as tag %s, which reads back as %s", v, k, back))
+				} else if !ok {
+					probs = append(probs, fmt.Sprintf("%s is written as tag %s, which the reader does not know", v, k))
+				}
+			}
+			for _, k := range sortedKeys(dec) {
+				v := dec[k]
+				if back, ok := enc[v]; ok && back != k {
+					probs = append(probs, fmt.Sprintf("tag %s reads as %s, which is written as tag %s", k, v, back))
+				}
+			}
+			c.check(len(probs) == 0, rule, rel+"."+name+": value<->tag tables are inverse", w.Pos(), fmt.Sprintf("%d values, %d tags", len(enc), len(dec)), fmt.Sprintf("%s.%s: the table MarshalTLB writes and the table UnmarshalTLB reads are not inverse: %s", rel, name, strings.Join(probs, "; ")))
+		}
+	}
+	return n
+}
